@@ -613,6 +613,23 @@ func c05R8(c *Ctx) {
 		}
 		hit, path = reachFromE(read.Block(), instrIndex(read)+1, func(in ssa.Instruction) bool { return in == ssa.Instruction(read) || isReturn(in) }, func(in ssa.Instruction) bool { return in == deliver }, empty)
 		c.check(hit == nil, name+"/no-read-dropped", c.ipos(read), "typed bytes (n > 0) always reach the input handler before the next read or the exit", "typed bytes can be skipped by the input pump", c.pathStr(path)...)
+		// after EOF the pump does not read again (off Windows, where EOF of the console is answered with Ctrl-Z and reading goes on)
+		notWin := func(from, to *ssa.BasicBlock) bool {
+			for _, fc := range edgeFactsTo(from, to) {
+				if call, _ := callOf(fc.V); call != nil && calleeID(&call.Call) == "trzsz.isRunningOnWindows" && fc.Pol {
+					return true
+				}
+			}
+			return false
+		}
+		for _, b := range f.Blocks {
+			for _, sx := range b.Succs {
+				if len(b.Succs) == 2 && b.Succs[0] != b.Succs[1] && eofEdge(b, sx) {
+					hit, path = reachFromE(sx, 0, func(in ssa.Instruction) bool { return in == ssa.Instruction(read) }, nil, notWin)
+					c.check(hit == nil, name+"/EOF-ends-pump", c.pos(b.Instrs[len(b.Instrs)-1].Pos()), "after EOF the pump does not read again", "after EOF the pump reads again: it spins on a closed input and never closes the remote side's input", c.pathStr(path)...)
+				}
+			}
+		}
 		// leaving the pump closes the remote side's input (the wrapped command sees EOF)
 		closes := func(in ssa.Instruction) bool {
 			ci, ok := in.(ssa.CallInstruction)
